@@ -83,6 +83,23 @@ class C19(Prop):
 
     BIG = 70000     # a limit above 2^16: counters narrower than size_t would wrap below it
 
+    @staticmethod
+    def run_big_stack(exe, line):
+        """one line through the harness on an 8 GiB main-thread stack (recursion 70000 deep in release / copy / serialize / describe under ASan)"""
+        import subprocess, resource, os
+        want = 8 << 30
+        soft, hard = resource.getrlimit(resource.RLIMIT_STACK)
+        if hard != resource.RLIM_INFINITY and hard < want: return None, 0, 'hard limit %d' % hard
+        def pre(): resource.setrlimit(resource.RLIMIT_STACK, (want, hard))
+        e = dict(os.environ); e.setdefault('ASAN_OPTIONS', 'detect_leaks=0:abort_on_error=0:allocator_may_return_null=1'); e.setdefault('UBSAN_OPTIONS', 'print_stacktrace=1')
+        try:
+            p = subprocess.run([exe], input=line + '\n', capture_output=True, text=True, timeout=600, env=e, preexec_fn=pre)
+        except subprocess.TimeoutExpired:
+            return [], -999, 'timeout'
+        out = p.stdout.split('\n')
+        if out and out[-1] == '': out.pop()
+        return out, p.returncode, p.stderr[-3000:]
+
     def big_limit(self, tier, ctx, only=None):
         """implementation only, closed-form expectation: nests of L-4465 .. L levels are decoded (and copied, serialized, described, released: the LOAD pipeline, on a 8 GiB stack),
         L+1 levels are refused with MEMERROR just past the head that would open level L+1, nothing left allocated"""
@@ -99,7 +116,9 @@ class C19(Prop):
                 b = nest(kind, d, b'\x00')
                 l = 'LOAD ' + gen.hexs(b) + ' 0 0 %d' % dec.HUGE
                 if only and only != l: continue
-                o, rc, err = core.run_lines(['prlimit', '--stack=8589934592', hb['exe']], [l], timeout=600)
+                o, rc, err = self.run_big_stack(hb['exe'], l)
+                if o is None:
+                    ctx.notes.append('C19: the stack limit of this sandbox cannot be raised to 8 GiB (%s): the limit-%d runs were skipped' % (err, L)); return fails
                 got = o[0] if o else ''
                 ctx.count(l[:120] + ' (L=%d)' % L, got[-160:]); ctx.bump('limit_%d' % L)
                 if d <= L: ok = rc == 0 and got.startswith('OK ') and (' read=%d ' % len(b)) in got and ' ser==' in got and ' copy=ok' in got and got.endswith(' final=0')
